@@ -110,6 +110,7 @@ def run(tier: str, opts: dict) -> int:
             tasks.append((st, d))
     res = pmap(_eval, tasks, chunk=16)
     regen = opts.get("regen_pins")
+    ansi_ok = {id(st): bool(r.get("ok")) for (st, d), r in zip(tasks, res) if d == "ansi"}
     new_pins = {}
     unclassified = []
     per_dialect = {}
@@ -136,6 +137,8 @@ def run(tier: str, opts: dict) -> int:
         dg = common.digest(r["obs"])
         if regen:
             fid = classify(st, d, r)
+            if fid is None and d != "ansi" and ansi_ok.get(id(st)):
+                fid = f"F-C09-{d}-deviates"  # ansi agrees with the reference for this statement, this dialect does not
             if fid is None:
                 unclassified.append((key, r))
             else:
